@@ -504,9 +504,26 @@ func init() {
 					}
 				}
 			}
-			r["rt"] = map[string]any{"nerr": len(perrs), "remlen": len(rem), "mapeq": eq, "ser2": ints(m2.Data())}
+			// the map handed out belongs to the caller: after the caller has edited it, the same Mapping still decodes to the original map
+			if berr == nil {
+				for k := range back {
+					delete(back, k)
+					break
+				}
+				back["\x00injected"] = "x"
+			}
+			again, aerr := m2.ToGoMap()
+			eq2 := aerr == nil && len(again) == len(gomap)
+			if eq2 {
+				for k, v := range gomap {
+					if bv, has := again[k]; !has || bv != v {
+						eq2 = false
+					}
+				}
+			}
+			r["rt"] = map[string]any{"nerr": len(perrs), "remlen": len(rem), "mapeq": eq, "mapeq_after_caller_edit": eq2, "ser2": ints(m2.Data())}
 		} else {
-			r["rt"] = map[string]any{"nerr": -1, "remlen": 0, "mapeq": false, "ser2": []int{}}
+			r["rt"] = map[string]any{"nerr": -1, "remlen": 0, "mapeq": false, "mapeq_after_caller_edit": false, "ser2": []int{}}
 		}
 		return r
 	})
